@@ -15,14 +15,14 @@ PROFILE = {"weights": {"create": 10, "mtag": 2, "feature": 2, "append": 6, "set_
                        "lookup": 1, "reopen": 0.3, "bad": 0.3}}
 
 
-def one(ctx, k, seed, length, final):
+def one(ctx, k, seed, length, final, variant=None):
     path = os.path.join(ctx.workdir, "d%d.nix" % k)
     side = os.path.join(ctx.workdir, "d%d.json" % k)
     env = ctx.impl_env()
     script = os.path.join(core.HERE, "impl_durable.py")
-    req = {"mode": "child", "seed": seed, "len": length, "profile": PROFILE, "path": path, "side": side, "final": final}
+    req = {"mode": "child", "seed": seed, "len": length, "profile": PROFILE, "path": path, "side": side, "final": final, "variant": variant}
     p = subprocess.run([core.PY, script], input=json.dumps(req), env=env, capture_output=True, text=True, cwd=ctx.workdir, timeout=600)
-    res = {"k": k, "seed": seed, "len": length, "final": final, "child_rc": p.returncode}
+    res = {"k": k, "seed": seed, "len": length, "final": final, "variant": variant, "child_rc": p.returncode}
     if p.returncode != -9:
         res["problem"] = "the writer did not reach its kill point (rc %s): %s" % (p.returncode, p.stderr[-300:])
         return res
@@ -71,6 +71,10 @@ def run(ctx):
     ctx.assumptions = ["every property theorem: Closed under the global context"]
     n = 400 if thorough else 48
     jobs = [(k, ctx.seed * 7919 + k, rnd.randint(0, 40 if thorough else 25), rnd.choice(["flush", "flush", "close"])) for k in range(n)]
+    # flush points at which the file holds no entity: right after creation (no operation at all), and after a history
+    # whose blocks and sections were all deleted again
+    jobs += [(n + j, ctx.seed * 7919 + n + j, 0, "flush", "empty") for j in range(2)]
+    jobs += [(n + 2 + j, ctx.seed * 7919 + n + 2 + j, rnd.randint(3, 20), "flush", "emptied") for j in range(12 if thorough else 4)]
     os.makedirs(ctx.workdir, exist_ok=True)
     with ThreadPoolExecutor(max_workers=8) as ex:
         results = list(ex.map(lambda j: one(ctx, *j), jobs))
@@ -93,12 +97,13 @@ def run(ctx):
             "broken_obligations": st["broken"]})
         ctx.violation("%d of %d killed writers: %s" % (len(failures), n, r["problem"]), rp)
     ctx.coverage.update({
-        "evaluations": n, "distinct_nontrivial": len(set((r["seed"], r["len"], r["final"]) for r in results)),
+        "evaluations": len(results), "distinct_nontrivial": len(set((r["seed"], r["len"], r["final"], r.get("variant")) for r in results)),
         "rule": "writer processes running a generated history of 0-40 operations (all entity kinds, links, deletions, earlier "
                 "flushes and reopenings), then creating compressed and uncompressed arrays grown by up to 4 appends and partly "
                 "rewritten; the state (canonical walk + shape/dtype/sha256 of every array) is saved aside, flush() (2/3) or "
                 "close() (1/3) is called and the process kills itself with SIGKILL; the file is then opened read-only and "
-                "read-write by fresh processes and compared.",
+                "read-write by fresh processes and compared. Extra flush points with NO entity in the file: right after creation, and "
+                "after all blocks and sections of a history were deleted again.",
         "kill_points": {"flush": sum(1 for r in results if r["final"] == "flush"), "close": sum(1 for r in results if r["final"] == "close")},
         "killed_by_sigkill": sum(1 for r in results if r["child_rc"] == -9), "spec_failures": len(failures),
         "samples": [{"seed": results[0]["seed"], "len": results[0]["len"], "final": results[0]["final"]}],
